@@ -65,7 +65,17 @@ func (b *Builder) expr1(e ast.Expr) *Term {
 				return b.expr(x.X) // generic instantiation
 			}
 		}
-		return mk("index", "", b.expr(x.X), b.expr(x.Index))
+		it := mk("index", "", b.expr(x.X), b.expr(x.Index))
+		if _, isMap := b.info.TypeOf(x.X).Underlying().(*types.Map); !isMap {
+			ist := &Site{Kind: "index", Pos: x.Lbrack, T: it, Base: it.Args[0], Idx: it.Args[1], Why: b.P.typeStr(b.info.TypeOf(x.X))}
+			if id, ok := ast.Unparen(x.Index).(*ast.Ident); ok {
+				if y := b.P.counterLoopBound(b.info.Uses[id]); y != nil {
+					ist.LoopBound = b.expr(y)
+				}
+			}
+			b.site(ist)
+		}
+		return it
 	case *ast.IndexListExpr:
 		return b.expr(x.X)
 	case *ast.SliceExpr:
@@ -76,9 +86,13 @@ func (b *Builder) expr1(e ast.Expr) *Term {
 		if x.High != nil {
 			hi = b.expr(x.High)
 		}
-		return mk("slice", "", b.expr(x.X), lo, hi)
+		slt := mk("slice", "", b.expr(x.X), lo, hi)
+		b.site(&Site{Kind: "slice", Pos: x.Lbrack, T: slt, Base: slt.Args[0], Lo: lo, Hi: hi, Why: b.P.typeStr(b.info.TypeOf(x.X))})
+		return slt
 	case *ast.StarExpr:
-		return mk("deref", "", b.expr(x.X))
+		dt := mk("deref", "", b.expr(x.X))
+		b.site(&Site{Kind: "deref", Pos: x.Star, T: dt, Base: dt.Args[0], Why: "explicit *"})
+		return dt
 	case *ast.UnaryExpr:
 		switch x.Op {
 		case token.AND:
@@ -103,7 +117,11 @@ func (b *Builder) expr1(e ast.Expr) *Term {
 	case *ast.FuncLit:
 		return b.funcLit(x)
 	case *ast.TypeAssertExpr:
-		return b.assertTerm(x)
+		at := b.assertTerm(x)
+		if x.Type != nil {
+			b.site(&Site{Kind: "assert1", Pos: x.Lparen, T: at, Base: at.Args[0], Why: at.Name})
+		}
+		return at
 	case *ast.KeyValueExpr:
 		return b.expr(x.Value)
 	}
@@ -260,18 +278,59 @@ func (b *Builder) selector(x *ast.SelectorExpr) *Term {
 	return b.ident(x.Sel)
 }
 
+// site records a panic-capable construct of the instance being built.
+func (b *Builder) site(s *Site) {
+	s.Inst = b.inst
+	if s.Pos == token.NoPos && s.T != nil {
+		s.Pos = s.T.Pos
+	}
+	b.G.Sites = append(b.G.Sites, s)
+}
+
+// callErrIdx: for every non-inlined callee seen, the index of its error
+// result (-1: none) and the number of results.
+var callErrIdx = map[string][2]int{}
+
+func registerCallSig(name string, sig *types.Signature) {
+	n := sig.Results().Len()
+	k := -1
+	if n > 0 {
+		if nt, ok := sig.Results().At(n - 1).Type().(*types.Named); ok && nt.Obj().Pkg() == nil && nt.Obj().Name() == "error" {
+			k = n - 1
+		}
+	}
+	callErrIdx[name] = [2]int{k, n}
+}
+
+// derefArgs: external callees that dereference a pointer argument (index into
+// receiver-first argument list).
+var derefArgs = map[string][]int{
+	"(*math/big.Int).Cmp":    {1},
+	"(*math/big.Int).CmpAbs": {1},
+	"(*math/big.Int).Set":    {1},
+	"(*math/big.Int).Add":    {1, 2},
+	"(*math/big.Int).Sub":    {1, 2},
+}
+
 // walkFields follows a selection index path through (possibly embedded) fields.
 func (b *Builder) walkFields(base *Term, t types.Type, idx []int) (*Term, types.Type) {
 	for _, i := range idx {
+		viaPtr := false
 		if p, ok := t.Underlying().(*types.Pointer); ok {
 			t = p.Elem()
+			viaPtr = true
 		}
 		st, ok := t.Underlying().(*types.Struct)
 		if !ok {
 			return mk("field", "?", base), t
 		}
 		f := st.Field(i)
-		base = mk("field", f.Name(), base)
+		ft := mk("field", f.Name(), base)
+		ft.Owner = b.P.typeStr(t)
+		if viaPtr {
+			b.site(&Site{Kind: "deref", T: ft, Base: base, Why: "field " + f.Name()})
+		}
+		base = ft
 		t = f.Type()
 	}
 	return base, t
@@ -487,6 +546,18 @@ func (b *Builder) callMulti(call *ast.CallExpr, nres int) []*Term {
 		t := &Term{Op: "call", Name: name, Args: all, Pos: call.Pos()}
 		b.pending = append(b.pending, t)
 		n := sig.Results().Len()
+		registerCallSig(name, sig)
+		if recv != nil {
+			_, rp := sig.Recv().Type().Underlying().(*types.Pointer)
+			if rp || isIface {
+				b.site(&Site{Kind: "deref", Pos: call.Pos(), T: t, Base: recv, Why: "method " + fn.Name()})
+			}
+		}
+		for _, ai := range derefArgs[name] {
+			if ai < len(all) {
+				b.site(&Site{Kind: "deref", Pos: call.Pos(), T: t, Base: all[ai], Why: "argument of " + fn.Name()})
+			}
+		}
 		if n <= 1 {
 			return []*Term{t}
 		}
